@@ -128,7 +128,10 @@ def bt_pdf(ctx):
     bg = env.import_generators()
     P = ctx.params
     names = P["cands"]
-    y = {c: fl(ctx, f"y_{c}", lo=0, lo_strict=True) for c in names}
+    # "fixed": supports given as concrete rationals (5 candidates: 120 rankings of degree-10 terms are beyond
+    # z3's reach when all five supports are symbolic)
+    fixed = P.get("fixed", {})
+    y = {c: (RealFraction(fixed[c]) if c in fixed else fl(ctx, f"y_{c}", lo=0, lo_strict=True)) for c in names}
     obj = object.__new__(bg.name_BradleyTerry)
     try:
         pdf = obj._BT_pdf(dict(y))
@@ -268,8 +271,11 @@ def tasks(tier, seed):
         out.append({"harness": "c15.interval", "params": {"cands": list("abcde")[:n]}, "name": f"interval n={n}", "xval_stride": 1})
     for groups in ([["a", "b"], ["c"]], [["a"], ["b"], ["c"]]) + (() if q else ([["a", "b"], ["c", "d"], ["e"]],)):
         out.append({"harness": "c15.combine", "params": {"groups": groups}, "name": f"combine {groups}", "xval_stride": 1, "split": 2})
-    for n in ((2, 3, 4) if q else (2, 3, 4, 5)):
+    for n in (2, 3, 4):
         out.append({"harness": "c15.bt_pdf", "params": {"cands": list("abcdef")[:n]}, "name": f"BT pdf n={n}", "xval_stride": 1, "weight": n ** 3})
+    if not q:
+        for fixed in ({"c": "1/3", "d": "5/2", "e": "7/4"}, {"a": "2", "b": "1/5", "e": "3"}):
+            out.append({"harness": "c15.bt_pdf", "params": {"cands": list("abcde"), "fixed": fixed}, "name": f"BT pdf n=5 fixed {sorted(fixed)}", "xval_stride": 1, "weight": 125})
     sizes = [(1, 1), (2, 1), (2, 2), (1, 3)] if q else [(a, b) for a in range(1, 5) for b in range(1, 5) if a + b <= 6]
     for sz in sizes:
         out.append({"harness": "c15.sbt_pdf", "params": {"sizes": sz}, "name": f"slate-BT types {sz}", "xval_stride": 1, "weight": 5})
